@@ -24,8 +24,8 @@ def mean(
     y_pred: pd.DataFrame | pd.Series,
     y_true: pd.DataFrame | pd.Series,
 ) -> float:
-    """Calculate root mean square error between model and data."""
-    return cast(float, np.mean(y_pred - y_true))
+    """Calculate the absolute mean error (bias) between model and data."""
+    return cast(float, np.abs(np.mean(y_pred - y_true)))
 
 
 def mean_squared(
